@@ -34,7 +34,8 @@ ASSUMPTIONS = [
     '(the statement does not say whether 1 is a wrong-typed 1.0)',
 ]
 ANCHORS = ['TableValidator._validate_json', 'TableValidator._validate_hdf5', 'TableValidator._valid_sparse_data', 'TableValidator._valid_dense_data', 'TableValidator._valid_rows', 'TableValidator._valid_columns', 'TableValidator._valid_hdf5_metadata_v210', 'Table.to_json', 'Table.to_hdf5']
-REQUIRED = ['accept_json', 'accept_hdf5', 'accept_after_load', 'accept_cli', 'json_mutants',
+REQUIRED = ['accept_with_explicit_version',
+            'must_reject_with_explicit_version', 'accept_json', 'accept_hdf5', 'accept_after_load', 'accept_cli', 'json_mutants',
             'hdf5_mutants', 'pair_mutants', 'must_reject_checked',
             'accepted_and_loaded']
 
@@ -315,11 +316,15 @@ def h5_corrupt(path):
     return None
 
 
-def validate(ctx, path):
+H5_VERSIONS = [None, '2.1', '2.1.0']      # spellings of "the current format"
+JSON_VERSIONS = [None, '1.0.0']
+
+
+def validate(ctx, path, version=None):
     """Returns ('valid'|'invalid'|'crash', detail)."""
     from biom.cli.table_validator import _validate_table
     try:
-        ok, report = _validate_table(path)
+        ok, report = _validate_table(path, version)
     except SystemExit as e:
         return ('invalid' if e.code else 'valid'), 'SystemExit(%r)' % e.code
     except BaseException as e:
@@ -390,16 +395,23 @@ def run_case(ctx, index):
             t.to_hdf5(f, gby, compress=r.random() < .5)
         # ------------------------------------------------------ acceptance
         for fmt, p in (('json', jp), ('hdf5', hp)):
-            v, detail = validate(ctx, p)
-            desc = dict(base, fmt=fmt, mutation=None)
-            if v != 'valid':
-                raise Violation('C15/writer-output-rejected/' + fmt,
-                                'validator says %s (%s) for a file the '
-                                'library just wrote; case=%r' % (v, detail,
-                                                                 desc))
+            for ver in (JSON_VERSIONS if fmt == 'json' else H5_VERSIONS):
+                v, detail = validate(ctx, p, ver)
+                desc = dict(base, fmt=fmt, mutation=None,
+                            format_version=ver)
+                if v != 'valid':
+                    raise Violation('C15/writer-output-rejected/' + fmt,
+                                    'validator (format version %r) says %s '
+                                    '(%s) for a file the library just wrote;'
+                                    ' case=%r' % (ver, v, detail, desc))
+                if ver:
+                    ctx.count('accept_with_explicit_version')
             ctx.count('accept_' + fmt)
             if index % 4 == 0:
-                rr = _cli(['validate-table', '-i', p])
+                ver = r.choice(JSON_VERSIONS if fmt == 'json'
+                               else H5_VERSIONS)
+                rr = _cli(['validate-table', '-i', p] +
+                          (['-f', ver] if ver else []))
                 if rr.exit_code != 0 or 'is a valid BIOM' not in rr.output:
                     raise Violation('C15/writer-output-rejected/cli-' + fmt,
                                     'exit %s: %r; case=%r' %
@@ -463,6 +475,15 @@ def run_case(ctx, index):
                 json.dump(doc, f)
             v, detail = validate(ctx, mp)
             desc = dict(base, fmt='json', mutation=label, must_reject=must)
+            if must and v != 'valid':
+                # ... and under every spelling of the format version
+                for ver in JSON_VERSIONS[1:]:
+                    v2, _ = validate(ctx, mp, ver)
+                    ctx.count('must_reject_with_explicit_version')
+                    if v2 == 'valid':
+                        v = 'valid'
+                        desc['format_version'] = ver
+                        break
             if v == 'valid':
                 if must:
                     raise Violation('C15/corruption-accepted/json/' +
@@ -514,6 +535,15 @@ def run_case(ctx, index):
             must = bool(why)
             v, detail = validate(ctx, mp)
             desc = dict(base, fmt='hdf5', mutation=label, must_reject=must)
+            if must and v != 'valid':
+                # ... and under every spelling of the format version
+                for ver in H5_VERSIONS[1:]:
+                    v2, _ = validate(ctx, mp, ver)
+                    ctx.count('must_reject_with_explicit_version')
+                    if v2 == 'valid':
+                        v = 'valid'
+                        desc['format_version'] = ver
+                        break
             if v == 'valid' and must:
                 raise Violation('C15/corruption-accepted/hdf5/' +
                                 label.split(':')[0].split('+')[0],
